@@ -8,6 +8,10 @@ def sysnote(extra=""):
     return ("Trusted: TLC; the recorder's projection (provenance ids via wrapped prior_transform/log_likelihood, order ranks, content tags, re-computation at the recorded temperature with the library's own functions); hooks placed after the state change. " + extra)
 
 CHECKS = {
+ "C05": dict(level="model_checking",
+    text="Reweight.tla models Reweighter.run with one action per metric evaluation over a dyadic temperature grid and arbitrary (also non-monotone) ESS / volume-metric oracles chosen lazily by TLC; invariants: result in [beta_prev,1], advance => ESS(result) >= target (ESS mode), result <= ESS limit with ESS(limit) >= target (volume mode), written (beta, ess, logz) and returned weights carry the same temperature, termination; seeded wrong variants refuted. Every enumerated behaviour is replayed into the real Reweighter.run with tagged stubs (queried temperature sequence, written state and weight tag compared exactly); real-history runs without stubs. System layer: every Reweight event of recorded whole runs is validated by TLC against PSRunTrace.tla (RW_FirstZero, RW_Monotone, RW_Bounded, RW_AdvanceESS, RW_Limit, RW_SameBeta) with ESS / evidence / weights recomputed at the recorded temperature from the pre-step history.",
+    note=sysnote("ESS >= target compared with 1e-9 relative slack on the library's own ESS function; that the weight formula is right is C04's job."),
+    technique="TLA+ specs (Reweight.tla, PSRun.tla) model-checked by TLC; enumerated behaviours replayed into the implementation; trace validation of recorded runs", design="DESIGN.md §4 C05"),
  "C06": dict(level="model_checking",
     text="Resample.tla models the systematic comb as the implementation's loop over rational cumulative weights and the multinomial draw as inverse-CDF lookup; TLC enumerates every breakpoint and every cell of the offset partition (so every u0 in [0,1)) incl. the tolerance family (sum slightly below 1, offsets just below 1) and checks count, range, monotonicity, zero-weight exclusion, the floor/ceil law and exact unbiasedness as a counting identity; every enumerated case is replayed into tools.systematic_resample with the uniform scripted, and multinomial draws of the real Resampler.run are validated by TLC on order ranks of the regenerated uniforms.",
     note="Trusted: TLC; numpy's Mersenne-Twister uniforms and the stream consumption of numpy.random.choice (verified empirically at start-up); dyadic witnesses make double arithmetic exact at breakpoints.",
@@ -54,6 +58,10 @@ CHECKS = {
     text="Config.tla holds the abstract option lattice and Valid(c) transcribed from the documented constraints. A covering array of the valid product (pairwise quick / 3-wise thorough; strength measured and re-checked by TLC against the spec's own Domain) plus every one-factor-at-a-time invalid value is run on the real Sampler; TLC validates the observed outcome of each configuration against Valid (rejected at construction with zero likelihood calls / runs to completion) and the full trace of every valid run against PSRunTrace.tla (NoRaise and the run postconditions).",
     note=sysnote("Covering-array strength is what is measured, not the full product."),
     technique="TLA+ specs (Config.tla, PSRun.tla); covering-array runs of the implementation validated by TLC", design="DESIGN.md §4 C18"),
+ "C20": dict(level="model_checking",
+    text="PARTIAL (ESS and trimming; the affine invariance of the volume metric is not addressed). Trim.tla models ESS as an exact rational and trim_weights as the code's loop (percentile grid, linear-interpolated percentile, mask >= threshold, search from the top); TLC checks ESS bounds / scale invariance / uniform case, the upper-set structure, the ESS-ratio guarantee, renormalisation, alignment and termination; every non-tie state is replayed into tools.trim_weights / effective_sample_size / compute_ess at scales 2^-400, 1, 2^400; a transliteration validated against every TLC state serves as oracle for long / extreme-range vectors.",
+    note="Trusted: TLC; numpy's percentile interpolation (read from source); states with exact ties or margins below 1e-9 are flagged by the spec and not replayed (counted). volume_variation is only monitored (non-negativity, n<d+1 guard).",
+    technique="TLA+ spec (Trim.tla) model-checked by TLC; enumerated states replayed into the implementation", design="DESIGN.md §4 C20"),
 }
 NA = {
  "C01": "ensemble statistics over seeds (bias of an estimator): no single behaviour can satisfy or violate it; TLC has no probability measure or real arithmetic",
